@@ -355,6 +355,15 @@ def null_discipline(f, key, start_node, is_local, alloc_call=None):
             if e is not None and is_key(e):
                 return None         # handed to the caller, who must test it
             c = cu.const_of(cu.strip_casts(f, e)) if e is not None else None
+            es = cu.strip_casts(f, e) if e is not None else None
+            if c is None and es is not None and es['k'] == 'ref':
+                # `return result;` with result known on this path (`result = ERROR_X; goto _fail;`)
+                for x in facts:
+                    if isinstance(x, tuple) and len(x) == 3 and x[1] == es['name']:
+                        if x[0] == 'eq' and isinstance(x[2], int):
+                            c = x[2]
+                        elif x[0] == 'ne' and x[2] == 0:
+                            c = 1
             is_err = (c is not None and c != 0 and f.ret and '*' not in f.ret) or \
                 any(m.startswith(('FAIL_ON_', 'GOTO_EXIT_ON_', 'YYABORT', 'YYERROR'))
                     for m in f.macros(n))
@@ -367,7 +376,13 @@ def null_discipline(f, key, start_node, is_local, alloc_call=None):
         return facts
 
     region_exit = _action_exit_block(f, start_node)
-    ct = paths.CondTracker(f, extra=[key] if not is_local else [])
+    rvars = set()
+    for n_ in f.all_nodes():
+        if n_['k'] == 'ret' and n_.get('c'):
+            e_ = cu.strip_casts(f, f.kid(n_, 0))
+            if e_ is not None and e_['k'] == 'ref':
+                rvars.add(e_['name'])
+    ct = paths.CondTracker(f, extra=([key] if not is_local else []) + sorted(rvars))
 
     def edge(b, term, cond, idx, succ, facts):
         facts = ct.on_edge(term, cond, idx, facts)
@@ -383,10 +398,16 @@ def null_discipline(f, key, start_node, is_local, alloc_call=None):
             pol0 = paths.branch_polarity(f, term, idx)
             if pol0 is not None and cond is not None:
                 c0, p0 = paths.normalise_cond(f, cond, pol0)
-                if c0 is not None and c0['k'] == 'bin' and c0['op'] in ('==', '!=', '>', '<='):
+                if c0 is not None and c0['k'] == 'bin' and c0['op'] in ('==', '!=', '>', '<=', '<', '>='):
                     l0, r0 = f.kid(c0, 0), f.kid(c0, 1)
-                    if _canon(f, l0) in size_args and cu.const_of(cu.strip_casts(f, r0)) == 0:
-                        zero = (c0['op'] in ('==', '<=')) == p0
+                    op0 = c0['op']
+                    if cu.const_of(cu.strip_casts(f, l0)) == 0 and cu.const_of(cu.strip_casts(f, r0)) is None:
+                        # `0 < n`, `0 == n`: the same test with the constant on the left
+                        l0, r0 = r0, l0
+                        op0 = {'<': '>', '>': '<', '<=': '>=', '>=': '<='}.get(op0, op0)
+                    if op0 in ('==', '!=', '>', '<=') and _canon(f, l0) in size_args and \
+                            cu.const_of(cu.strip_casts(f, r0)) == 0:
+                        zero = (op0 in ('==', '<=')) == p0
                         if zero:
                             return None
         if region_exit is not None and succ == region_exit:
@@ -472,6 +493,54 @@ def r16_3(ctx):
             h = _holder(f, c)
             a0 = f.call_args(c)[0]
             same = h[0] == 'lvalue' and f.show(cu.strip_casts(f, a0)) == h[1]
+            if same:
+                # `items = yr_realloc(items, ..)` where items is a local copy of a slot that
+                # keeps the old pointer (`items = array->items`): nothing is lost as long as
+                # the slot is not overwritten with the result before the result was tested
+                a0s = cu.strip_casts(f, a0)
+                if a0s is not None and a0s['k'] == 'ref' and a0s.get('dk') == 'local':
+                    slots = []
+                    for n_ in f.all_nodes():
+                        src = None
+                        if n_['k'] == 'decl' and n_.get('name') == a0s['name'] and n_.get('c'):
+                            src = cu.strip_casts(f, f.kid(n_, 0))
+                        elif n_['k'] == 'bin' and n_['op'] == '=' and n_ is not f.parent(c):
+                            l_ = cu.strip_casts(f, f.kid(n_, 0))
+                            if l_ is not None and l_['k'] == 'ref' and l_['name'] == a0s['name']:
+                                src = cu.strip_casts(f, f.kid(n_, 1))
+                                if src is not None and src['k'] == 'call':
+                                    src = None if src is c or cu.strip_casts(f, f.kid(n_, 1)) is c else src
+                        if src is not None and src['k'] == 'member':
+                            slots.append(f.show(src))
+                    if slots:
+                        early = []
+                        nb = f.block_of(c)
+                        ctr = paths.CondTracker(f, extra=[a0s['name']])
+
+                        def step(x, facts):
+                            if x['k'] == 'bin' and x['op'] == '=' and f.show(cu.strip_casts(f, f.kid(x, 0))) in slots:
+                                r_ = cu.strip_casts(f, f.kid(x, 1))
+                                if r_ is not None and r_['k'] == 'ref' and r_['name'] == a0s['name']:
+                                    early.append(x)
+                                return None
+                            if x['k'] == 'ret':
+                                return None
+                            return facts
+
+                        def edge(b, term, cond, idx, succ, facts):
+                            pol = paths.branch_polarity(f, term, idx)
+                            if pol is not None and cond is not None:
+                                imp = ctr.implied(cond, pol)
+                                if imp is not None and imp[1] == a0s['name'] and imp[2] == 0:
+                                    return None         # the result is being tested: stop here
+                            return facts
+                        try:
+                            paths.explore(f, set(), step, edge, start_block=nb[0], start_index=nb[1] + 1,
+                                          max_states=512)
+                            if not early:
+                                same = False
+                        except paths.Budget:
+                            pass
             ctx.ob('R16.3', '%s:%s=yr_realloc' % (f.name, h[1] if h[0] == 'lvalue' else h[0]),
                    not same, f.loc(c),
                    'p = yr_realloc(p, ..): on failure the only pointer to the old block '
